@@ -716,7 +716,10 @@ pub fn gen_cap(rng: &mut Rng, len: usize, extents: &[usize]) -> usize {
 }
 
 pub fn gen_growing_policy(rng: &mut Rng) -> PolSpec {
-    match rng.below(6) {
+    match rng.below(9) {
+        6 => PolSpec::Times(rng.range(3, 5)),
+        7 => PolSpec::JumpTo(*rng.pick(&[16usize, 50, 200, 1000])),
+        8 => PolSpec::Plus(rng.range(10, 60)),
         0 | 1 => PolSpec::Std,
         2 => PolSpec::DoubleUntil(*rng.pick(&[4usize, 8, 16, 64])),
         3 => PolSpec::PlusOne,
@@ -734,7 +737,8 @@ pub fn tame_policy(p: &PolSpec, input_len: usize) -> PolSpec {
         return p.clone();
     }
     match p {
-        PolSpec::Std | PolSpec::RefuseAlways => p.clone(),
+        PolSpec::Std | PolSpec::RefuseAlways | PolSpec::Times(_) => p.clone(),
+        PolSpec::JumpTo(n) if *n >= 65536 => p.clone(),
         PolSpec::DoubleUntil(t) if *t >= 65536 => p.clone(),
         PolSpec::DoubleUntilLimited(t, _) if *t >= 65536 => p.clone(),
         PolSpec::DoubleUntilLimited(_, l) => PolSpec::DoubleUntilLimited(1 << 20, (*l).max(1 << 30)),
